@@ -480,8 +480,10 @@ func (s *Schema) compile() error {
 		if err := s.load(); err != nil {
 			return err
 		}
-		loader.CompileAllOf(s.inner)
+		// The types which were added to the added types first: "allOf" refers
+		// to them like every other rule does.
 		loader.AddUnnamedTypes(s.inner)
+		loader.CompileAllOf(s.inner)
 		checker.CheckRootSchema(s.inner)
 		return checker.CheckRecursion(s.file.Name(), s.inner)
 	})
